@@ -11,22 +11,22 @@ CHECKS = {
  "C01": "Every API operation is executed symbolically; on every feasible path z3 refutes 'a written frame violates magic / LE16 total length / terminator / signature' for all device ids, keys, sessions, clock values, replies and arguments in the bounds.",
  "C02": "The command frame of each operation is compared byte-for-byte with an independent reference layout for every argument value in the bounds; arguments the statement rejects must raise before any command frame.",
  "C03": "Ordered pairs (thorough: triples) of operations on one connection and two instances interleaved at every await point are executed with fresh symbolic sessions, clock reads, ids and keys; login-first, own-session, own-timestamp, own-id are refuted per path; a write-set monitor shows that no state outlives an operation.",
- "C04": "sign_packet_with_crc_key is executed on every hex text of 0..24 (quick) / 0..160 (thorough) bytes in both letter cases against a bit-precise CRC-16 reference; free text of 1..6 characters that is not valid hex must raise.",
- "C05": "_parse_device_from_datagram is executed with every byte of the datagram symbolic under the well-formedness predicate; each delivered field is compared with an independent reference decoder, per device type.",
- "C06": "The datagram is 2 free bytes plus a tail of symbolic length (0..65505): one query per path covers every length and content; the three accepted lengths are re-run with all bytes free for the unknown-model clause.",
- "C07": "SwitcherBridge.start and the per-port protocols run under a stub event loop; sequences of datagram classes (valid of each family, foreign, short, long, unknown model, undecodable) with every byte symbolic under its class predicate and one symbolic 'callback raises' bit per invocation; per-port delivery log compared with the reference decode.",
- "C08": "get_state / get_shutter_state / get_breeze_state are executed against a reply whose parsed prefix is fully symbolic plus a tail of symbolic length; every field of the returned object is compared with the reference decoder.",
+ "C04": "sign_packet_with_crc_key is executed on every hex text of 0..24 (quick) / 0..160 (thorough) bytes in both letter cases against a bit-precise CRC-16 reference; free text of 1..6 characters that is not valid hex must raise; byte strings of 31..4097 (thorough: every length to 1100, selected lengths to 4225) bytes with the CRC byte step uninterpreted.",
+ "C05": "_parse_device_from_datagram is executed with every byte of the datagram symbolic under the well-formedness predicate; each delivered field is compared with an independent reference decoder, per device type, also after an earlier broadcast of the same model with free identity bytes.",
+ "C06": "The datagram is 2 free bytes plus a tail of symbolic length (0..65505): one query per path covers every length and content; the three accepted lengths are re-run with all bytes free for the unknown-model clause; the same foreign datagram arriving 128 (1024) times is ignored every time.",
+ "C07": "SwitcherBridge.start and the per-port protocols run under a stub event loop; sequences of datagram classes (valid of each family, foreign, short, long, unknown model, undecodable) with every byte symbolic under its class predicate and one symbolic 'callback raises' bit per invocation; per-port delivery log compared with the reference decode; runs of identical failing datagrams or failing callbacks followed by a valid broadcast.",
+ "C08": "get_state / get_shutter_state / get_breeze_state are executed against a reply whose parsed prefix is fully symbolic plus a tail of symbolic length; every field of the returned object is compared with the reference decoder; SwitcherLoginResponse on login replies of 12..48 (96) free bytes.",
  "C09": "Every operation is executed with replies of every length 0..101 (all bytes free) and with a symbolic-length tail at each step; the set of outcomes (returned class / exception class / frames written / success flag) is computed over all feasible paths.",
  "C10": "get_schedules is executed (1) on one record with all bytes free and everything inlined, (2) on k records with the day/duration/next-run functions replaced by argument-recording summaries, (3) on the record create_schedule itself emits, listed back under an arbitrary slot id; zone row and instants symbolic.",
  "C11": "time_to_hexadecimal_timestamp and its decoder are executed with 4 free digits, a free clock instant and a symbolic row of the tz table per zone; the encoded value must be the epoch second of that local time on the local date of the clock read and decode back to the same text; free ASCII text of 0..6 (8) characters that is not HH:MM must raise.",
- "C12": "Weekday encoders/decoder executed on a symbolic single day, a set with 7 free membership bits, lists/tuples of symbolic days and a symbolic mask; bit-exactness, rejection and the round trip are refuted per path.",
+ "C12": "Weekday encoders/decoder executed on a symbolic single day, a set with 7 free membership bits, lists/tuples of symbolic days and a symbolic mask; bit-exactness, rejection and the round trip are refuted per path; a decode after a decode whose caller emptied the returned set.",
  "C13": "pretty_next_run is executed per (zone, day set) with symbolic start digits, clock instant and zone row; the text is compared with the earliest-occurrence rule on the LOCAL weekday and minute.",
  "C14": "calc_duration executed on symbolic digits: all 1440 x 1440 pairs per digit shape in one run.",
  "C15": "build_command / build_swing_command run on an arbitrary valid remote state (one presence bit per key of the key universe, code texts of symbolic length, symbolic min/max/target) per discrete request; the result must be the first present key of the reference chain with a little-endian length; capabilities are checked on every IR set of n waves over a representative key list.",
  "C16": "control_breeze_device is executed per (subset of given settings, remote kind, update flag, faulty step) with the current-state reply, requested values, sessions and IR texts symbolic and the remote replaced by a recording stub; merged values, frame contents, swing command and fault outcomes are refuted per path.",
- "C17": "Every sequence of up to n bridge actions (start, stop, enter, exit, send, occupy, release, cycle) over a stub event loop; the action of each step is a solver variable; after each step the running flag, the set of listening ports and the callbacks are checked against the life-cycle automaton.",
+ "C17": "Every sequence of up to n bridge actions (start, stop, enter, exit, send, occupy, release, cycle) over a stub event loop; the action of each step is a solver variable; after each step the running flag, the set of listening ports and the callbacks (owed per received broadcast, never while nothing is listening) are checked against the life-cycle automaton; replays also run hurried schedules between a broadcast and stop().",
  "C18": "Every sequence of up to n client actions (connect, refused connect, operation, failing operation, disconnect, async-with variants) over stub streams for both API types; connected flag and open sockets are checked after each step.",
- "C19": "Device type is a symbolic choice over the enum; constructors of the four classes and both port tables are checked against the statement's own table (finite space, covered completely).",
+ "C19": "Device type is a symbolic choice over the enum; constructors of the four classes and both port tables are checked against the statement's own table (finite space, covered completely), each class also after an earlier construction in any class.",
 }
 REF = {k: "DESIGN.md §6 " + k for k in CHECKS}
 
